@@ -105,7 +105,9 @@ class Conserve:
                            f'{self.lost[u]}')
                 return
         gen = log.leaves
-        if len(gen) != n_inside + len(self.received) + len(self.lost):
+        if cen.opaque:
+            ctx.count('census_opaque_conservation_not_judged')
+        elif len(gen) != n_inside + len(self.received) + len(self.lost):
             missing = [self.uid(p) for p in gen if self.uid(p) not in cen.loc
                        and self.uid(p) not in self.received and self.uid(p) not in self.lost]
             extra = [u for u in list(cen.loc) + list(self.received) + list(self.lost)
